@@ -108,7 +108,42 @@ func c03Deep(c *core.Ctx) {
 	}
 }
 
+// c03MultiLine: literals that span lines, in the positions where a line break matters to the reader.
+func c03MultiLine(c *core.Ctx) {
+	lits := []*gen.Node{gen.T_("`l1\nl2`"), gen.T_("`\n`"), gen.S("'a\\\nb'"), gen.T_("`x`")}
+	for li, l := range lits {
+		mk := func() *gen.Node { return gen.Clone(l) }
+		progs := [][]*gen.Node{
+			{gen.Ret(mk())},
+			{gen.Ret(gen.Bi("+", mk(), gen.I("a")))},
+			{gen.Func("g", nil, gen.Ret(gen.Bi("+", mk(), gen.I("t"))))},
+			{gen.Ex(gen.Ix(mk(), gen.N("0")))},
+			{gen.Ex(gen.Ca(gen.Do(mk(), "trim")))},
+			{gen.Ex(gen.As("=", gen.I("x"), mk())), gen.Ex(gen.U("++", gen.I("y")))},
+			{gen.Ex(gen.As("=", gen.I("x"), mk())), gen.Ex(gen.G(gen.I("a")))},
+			{gen.Ex(gen.Bi("+", gen.I("a"), mk())), gen.Ex(gen.Ar(gen.I("b")))},
+			{gen.Let("s", mk()), gen.Ex(gen.U("-", gen.I("a")))},
+			{gen.If(gen.I("c"), gen.Ret(mk()), gen.Ex(gen.Ca(gen.I("f"), mk(), mk())))},
+		}
+		for pi, prog := range progs {
+			if !c.Next() || c.Tick() {
+				continue
+			}
+			for ci, cfg := range c03Cfgs {
+				c.Inc("print_parse_roundtrips")
+				c.Inc("multiline_literal_roundtrips")
+				k, d, _ := c03Check(prog, cfg)
+				if k != "" && c.ShrinkOK("ml"+k) {
+					pl, _ := json.Marshal(c03Payload{Deep: []int{-1, li, pi, ci}})
+					c.Violate(core.Violation{Kind: k, Config: cfg.String(), Case: "multi-line literal: " + gen.ShapeProgram(prog), Detail: core.Short(d, 500), Payload: pl, Size: 20})
+				}
+			}
+		}
+	}
+}
+
 func c03Run(c *core.Ctx) {
+	c03MultiLine(c)
 	c03Edited(c)
 	c03Deep(c)
 	full := c.Thorough()
@@ -260,6 +295,10 @@ func c03Replay(pl json.RawMessage) (string, []core.Violation) {
 	var vs []core.Violation
 	if len(p.Deep) > 0 {
 		cx := core.NewCtx("C03", "thorough", 0, 0, 1, time.Now().Add(10*time.Minute))
+		if p.Deep[0] < 0 {
+			c03MultiLine(cx)
+			return "multi-line literal family re-run", cx.Violations()
+		}
 		c03Deep(cx)
 		return "deep-chain family re-run", cx.Violations()
 	}
